@@ -664,7 +664,18 @@ func driveC15(c *h.Ctx) error {
 		"failing/panicking items, Stop option, bare contexts), half of them through a real kmipserver.Server over in-memory connections. A scenario is non-trivial when "+
 		"some request reads after some request stored; distinct by full scenario content", nRandom))
 	var cases []c15Case
+	nestedOnly := false
 	if c.Replay != nil {
+		if m, _ := c.Replay["case"].(map[string]any); m != nil && m["kind"] == "nested-request" {
+			nestedOnly = true
+		}
+	}
+	if c.Replay == nil || nestedOnly {
+		c15Nested(c)
+	}
+	if nestedOnly {
+		// nothing else to replay
+	} else if c.Replay != nil {
 		b, err := json.Marshal(c.Replay["case"])
 		if err != nil {
 			return err
